@@ -331,6 +331,48 @@ def classify(case):
     return 'ok', ''
 
 
+def source_obligations(prop, mod, work):
+    """Constants the model shares with the source are re-read from /repo on every run and
+    turned into Lean obligations (`example : <model constant> = <value read from the code>`),
+    checked by the Lean kernel.  `mod.SOURCE_CONSTANTS` maps a Lean term to a Python expression
+    evaluated in a worker (the real modules imported from the working tree)."""
+    consts = getattr(mod, 'SOURCE_CONSTANTS', None)
+    if not consts:
+        return None
+    script = work.path('consts.py')
+    with open(script, 'w') as f:
+        f.write('import json, sys\nsys.path.insert(0, %r)\nimport rt\n' % HARNESS)
+        f.write('out = {}\n')
+        for lean_term, (imports, expr) in consts.items():
+            f.write('try:\n    %s\n    out[%r] = int(%s)\nexcept Exception as ex:\n    out[%r] = "error: %%s" %% ex\n'
+                    % (imports, lean_term, expr, lean_term))
+        f.write('print("CONSTS " + json.dumps(out))\n')
+    p = subprocess.run([PY, script], cwd=work.dir, env=worker_env(), stdout=subprocess.PIPE,
+                       stderr=subprocess.PIPE, text=True, timeout=300)
+    vals = {}
+    for line in p.stdout.splitlines():
+        if line.startswith('CONSTS '):
+            vals = json.loads(line[7:])
+    info, problems = {}, []
+    if not vals:
+        problems.append('could not read constants from the source: %s' % p.stderr[-400:])
+    lean_file = work.path('Generated_%s.lean' % prop)
+    with open(lean_file, 'w') as f:
+        for imp in getattr(mod, 'SOURCE_IMPORTS', []):
+            f.write('import %s\n' % imp)
+        for term, v in vals.items():
+            info[term] = v
+            if isinstance(v, int):
+                f.write('example : (%s) = (%d) := by decide\n' % (term, v))
+            else:
+                problems.append('%s: %s' % (term, v))
+    q = subprocess.run(['lake', 'env', 'lean', lean_file], cwd=LEAN, stdout=subprocess.PIPE,
+                       stderr=subprocess.STDOUT, text=True, timeout=600)
+    if q.returncode != 0:
+        problems.append('model constant differs from the source: %s' % q.stdout.strip()[:600])
+    return {'info': info, 'problems': problems}
+
+
 def load_prop(prop):
     sys.path.insert(0, HARNESS)
     return importlib.import_module('props.' + prop.lower())
